@@ -27,6 +27,6 @@ rm -f "$PLACE/zz_seed_demo_test.go"
 go test -count=1 -vet=off ./internal/... 2>&1 | grep -E '^(--- FAIL|FAIL|ok)' | grep -v 'TestManagerStarts\|TestManagerNotInitializedIfNothingToWatch' > "$TMP/tests.out"
 if grep -q -- '--- FAIL' "$TMP/tests.out"; then echo "existing tests pass: NO"; grep -- '--- FAIL' "$TMP/tests.out" | head -5; else echo "existing tests pass: yes"; fi
 for id in $IDS; do
-  "$HERE/bin/authcheck" "$id" -repo "$TMP/repo" -verif "$TMP/verif" > "$TMP/chk.out" 2>&1
+  "${AUTHCHECK:-$HERE/bin/authcheck}" "$id" -repo "$TMP/repo" -verif "$TMP/verif" > "$TMP/chk.out" 2>&1
   if grep -q '^VIOLATION' "$TMP/chk.out"; then echo "check $id: FIRES"; grep 'violated' "$TMP/chk.out" | head -3 | cut -c1-300; else echo "check $id: silent"; fi
 done
